@@ -3,6 +3,7 @@ package frac
 import (
 	"context"
 
+	"github.com/ozontech/seq-db/consts"
 	"github.com/ozontech/seq-db/frac/processor"
 	"github.com/ozontech/seq-db/parser"
 	"github.com/ozontech/seq-db/seq"
@@ -161,5 +162,84 @@ func VerifActiveSearch() {
 			rt.Assert(qpr.IDs[i].ID == want[i], "ids are the matching documents in the requested order")
 		}
 	}
+	rt.Reach("end")
+}
+
+// VerifActiveAgg: a count-by-group aggregation over the real active fraction (activeTokenIndex,
+// inverser, sourced OR tree over one posting list per group token) equals the count computed from
+// the documents in [from,to], also when the range leaves some group token without any document.
+func VerifActiveAgg() {
+	n, per := rt.Param("DOCS"), rt.Param("BULK")
+	groups := []string{"a", "b", "c"}
+	f := &Active{
+		Config:        &Config{SkipSortDocs: true},
+		TokenList:     NewActiveTokenList(1),
+		DocsPositions: NewSyncDocsPositions(),
+		MIDs:          NewIDs(),
+		RIDs:          NewIDs(),
+		DocBlocks:     NewIDs(),
+		info:          &Info{Path: "frac", From: ^seq.MID(0), To: 0, BinaryDataVer: BinaryDataV1},
+	}
+	f.MIDs.Append(systemMID)
+	f.RIDs.Append(systemRID)
+	c := newMetaDataCollector()
+	ids := make([]seq.ID, n)
+	grp := make([]int, n) // group of the document, len(groups) = the document has no group token
+	var metas []MetaData
+	blockPos := uint64(0)
+	for i := 0; i < n; i++ {
+		ids[i] = seq.ID{MID: seq.MID(rt.NondetU64()), RID: seq.RID(rt.NondetU64())}
+		rt.Assume(rt.And(ids[i].MID >= 1, ids[i].MID < 1<<40))
+		for j := 0; j < i; j++ {
+			rt.Assume(ids[j] != ids[i])
+		}
+		grp[i] = rt.Choose(len(groups) + 1)
+		m := MetaData{ID: ids[i], Size: 2, Tokens: []MetaToken{{Key: []byte(seq.TokenAll), Value: []byte{}}}}
+		if grp[i] < len(groups) {
+			m.Tokens = append(m.Tokens, MetaToken{Key: []byte("f"), Value: []byte(groups[grp[i]])})
+		}
+		metas = append(metas, m)
+		if len(metas) == per || i == n-1 {
+			vASIndexBulk(f, c, metas, blockPos)
+			blockPos += 100
+			metas = nil
+		}
+	}
+	rt.Reach("built")
+	from, to := seq.MID(rt.NondetU64()), seq.MID(rt.NondetU64())
+	order := seq.DocsOrder(rt.Choose(2))
+	p := processor.SearchParams{From: from, To: to, Limit: 0, WithTotal: true, Order: order,
+		AggQ: []processor.AggQuery{{Func: seq.AggFuncCount, GroupBy: &parser.Literal{Field: "f", Terms: []parser.Term{{Kind: parser.TermSymbol, Data: "*"}}}}}}
+	qpr, err := vASSearch(f, "*", p)
+	rt.Assert(err == nil, "search succeeds")
+	if err != nil {
+		return
+	}
+	rt.Reach("searched")
+	rt.Assert(len(qpr.Aggs) == 1, "one aggregation result")
+	if len(qpr.Aggs) != 1 {
+		return
+	}
+	agg := qpr.Aggs[0]
+	want := make([]int64, len(groups)+1)
+	for i := range ids {
+		if rt.And(from <= ids[i].MID, ids[i].MID <= to) {
+			want[grp[i]]++
+		}
+	}
+	bins := 0
+	for g, name := range groups {
+		got := agg.SamplesByBin[seq.AggBin{Token: name, MID: consts.DummyMID}]
+		if want[g] == 0 {
+			rt.Assert(got == nil || got.Total == 0, "no bucket for a group without documents in range")
+			continue
+		}
+		bins++
+		rt.Assert(got != nil, "a group with documents in range has a bucket under its own token")
+		if got != nil {
+			rt.Assert(got.Total == want[g], "count of the group = number of its documents in range")
+		}
+	}
+	rt.Assert(agg.NotExists == want[len(groups)], "documents without the field are counted as not existing")
 	rt.Reach("end")
 }
